@@ -475,10 +475,9 @@ let () = register "cstack_cg" (fun args ->
   let oracle =
     if L.length args < 2 then "-" else
     if model = impl then "ok"
-    else if L.exists (fun s -> s <> StackSeq.SOk) statuses then "-"     (* the model writer refused a transaction: nothing to demand *)
     else match S.split_on_char '#' impl with
       | [cst; goobs] ->
-        if cst <> mstat then "bad:the C stack refused a transaction (" ^ cst ^ ")"
+        if cst <> mstat then "bad:the C stack accepts / refuses other transactions than the Go stack (C: " ^ cst ^ "; Go and model: " ^ mstat ^ ")"
         else (match S.split_on_char '^' goobs with
             | [_; _; grefs; glogs] ->
               if grefs <> refs then "bad:Go reads other refs from the directory C wrote than were written"
